@@ -218,6 +218,36 @@ func genAbiLogs(thorough bool, rng *h.Rng, emit func(string)) {
 			}
 			emit(fmt.Sprintf("al %d v %s", sp.idx, joinOr(vals, ";")))
 		}
+		// "long strings, member lists of any length" (review E #3, T1b): 9 000 / 70 000 bytes (thorough: 1 MiB), 450 / 5 000 members
+		if isSubscribed(sp.idx) {
+			sizes := [][2]int{{9000, 450}, {70000, 5000}}
+			if thorough {
+				sizes = append(sizes, [2]int{1 << 20, 20000})
+			}
+			for _, sz := range sizes {
+				var vals []string
+				big := false
+				for j, in := range ev.Inputs {
+					switch in.Type.String() {
+					case "string", "bytes":
+						vals = append(vals, h.Hex(rng.Bytes(sz[0])))
+						big = true
+					case "address[]":
+						var p []string
+						for i := 0; i < sz[1]; i++ {
+							p = append(p, h.Hex(rng.Bytes(20)))
+						}
+						vals = append(vals, strings.Join(p, ","))
+						big = true
+					default:
+						vals = append(vals, boundaryValue(in.Type, j, rng))
+					}
+				}
+				if big {
+					emit(fmt.Sprintf("al %d v %s", sp.idx, joinOr(vals, ";")))
+				}
+			}
+		}
 		// raw logs
 		var vals []string
 		for _, in := range ev.Inputs {
